@@ -107,6 +107,17 @@ pub enum Skip {
     No,
     Serde,
     Typeshare,
+    /// `serde(skip_serializing)` alone: still read from the wire, so not skipped
+    SerializingOnly,
+    /// `serde(skip_deserializing)` alone: still written to the wire, so not skipped
+    DeserializingOnly,
+}
+
+impl Skip {
+    /// the member is absent from the wire in both directions (what typeshare calls skipped)
+    pub fn skipped(self) -> bool {
+        matches!(self, Skip::Serde | Skip::Typeshare)
+    }
 }
 
 #[derive(Clone, Copy, Debug, PartialEq, Eq, PartialOrd, Ord, Hash)]
@@ -141,6 +152,9 @@ pub enum Doc {
     Block(String),
     /// `#[doc = "text"]`
     Attr(String),
+    /// not a doc at all: an attribute of another crate, written verbatim as `#[text]` in the same place
+    /// (`value(skip)`, `schemars(skip)`, `sqlx(rename = "x")` …); typeshare reads only serde / typeshare / cfg / doc
+    Foreign(String),
 }
 
 #[derive(Clone, Debug)]
@@ -302,6 +316,7 @@ fn render_docs(docs: &[Doc], indent: &str, out: &mut String) {
             }
             Doc::Block(t) => out.push_str(&format!("{indent}/** {t} */\n")),
             Doc::Attr(t) => out.push_str(&format!("{indent}#[doc = {}]\n", rust_str(t))),
+            Doc::Foreign(t) => out.push_str(&format!("{indent}#[{t}]\n")),
         }
     }
 }
@@ -379,6 +394,8 @@ fn field_serde_args(f: &Field) -> (Vec<String>, Vec<String>) {
         Skip::No => {}
         Skip::Serde => s.push("skip".into()),
         Skip::Typeshare => t.push("skip".into()),
+        Skip::SerializingOnly => s.push("skip_serializing".into()),
+        Skip::DeserializingOnly => s.push("skip_deserializing".into()),
     }
     if let Some(sa) = &f.serialized_as {
         t.push(format!("serialized_as = {}", rust_str(sa)));
@@ -461,6 +478,8 @@ pub fn render_item(it: &Item, indent: &str, out: &mut String) {
                     Skip::No => {}
                     Skip::Serde => vs.push("skip".into()),
                     Skip::Typeshare => vt.push("skip".into()),
+                    Skip::SerializingOnly => vs.push("skip_serializing".into()),
+                    Skip::DeserializingOnly => vs.push("skip_deserializing".into()),
                 }
                 render_attrs(&vs, &vt, &v.cfgs, &v.docs, v.style, &ind2, out);
                 match &v.kind {
@@ -571,6 +590,7 @@ pub fn ambient(file: &File, k: usize) -> File {
                 // (each doc ends in an empty doc line: "summary, blank line" is a common layout)
                 it.docs.push(Doc::Line("ambient note on the item".into()));
                 it.docs.push(Doc::Line(String::new()));
+                it.docs.push(Doc::Foreign("schemars(skip, rename = \"AmbientSchemaName\")".into()));
                 it.cfgs.push("feature = \"ambient\"".into());
                 if matches!(it.kind, IKind::Struct(_)) {
                     it.extra_serde.push("deny_unknown_fields".into());
@@ -578,12 +598,16 @@ pub fn ambient(file: &File, k: usize) -> File {
                 for_fields(it, &mut |x| {
                     x.docs.push(Doc::Line("ambient note on the field".into()));
                     x.docs.push(Doc::Line(String::new()));
+                    x.docs.push(Doc::Foreign("schemars(skip)".into()));
+                    x.docs.push(Doc::Foreign("sqlx(rename = \"ambient_column\", default, flatten)".into()));
                     x.cfgs.push("feature = \"ambient\"".into());
                 });
                 if let IKind::Enum { variants, .. } = &mut it.kind {
                     for v in variants {
                         v.docs.push(Doc::Line("ambient note on the variant".into()));
                         v.docs.push(Doc::Line(String::new()));
+                        v.docs.push(Doc::Foreign("value(skip)".into()));
+                        v.docs.push(Doc::Foreign("strum(serialize = \"ambient-name\", tag = \"x\", content = \"y\")".into()));
                         v.cfgs.push("feature = \"ambient\"".into());
                         v.extra_serde.push("alias = \"AmbientAlias\"".into());
                     }
